@@ -510,4 +510,139 @@ theorem WF_run {s : St} {hc : Int} (ops : List (Int × Op)) (h0 : 0 ≤ hc) (hm 
     simp only [run]
     exact ih (by omega) hrest (WF_step h op h0 hle (by unfold two63 at h1; exact h1) hw)
 
+/-! ### stored records stay within the accepted requests, height by height -/
+
+theorem unitsAt_cons (r : Rec) (rs : List Rec) (q : Int) :
+    unitsAt (r :: rs) q = (if r.height = q then r.units else 0) + unitsAt rs q := by
+  unfold unitsAt
+  by_cases h : r.height = q
+  · simp [List.filter, h, total]
+  · simp [List.filter, h, total]
+
+theorem unitsAt_append (a b : List Rec) (q : Int) : unitsAt (a ++ b) q = unitsAt a q + unitsAt b q := by
+  unfold unitsAt; rw [List.filter_append, total_append]
+
+theorem unitsAt_filter_le (p : Rec → Bool) (rs : List Rec) (q : Int) : unitsAt (rs.filter p) q ≤ unitsAt rs q := by
+  induction rs with
+  | nil => simp [unitsAt, total]
+  | cons r rs ih =>
+    simp only [List.filter]
+    cases hp : p r
+    · simp only [unitsAt_cons]; omega
+    · simp only [unitsAt_cons]; omega
+
+theorem unitsAt_shrinks {a b : List Rec} (h : shrinks a b = true) (q : Int) : unitsAt b q ≤ unitsAt a q := by
+  induction a generalizing b with
+  | nil => cases b with
+    | nil => exact Nat.le_refl _
+    | cons y ys => simp [shrinks] at h
+  | cons x xs ih =>
+    cases b with
+    | nil => simp [shrinks] at h
+    | cons y ys =>
+      simp only [shrinks, Bool.and_eq_true, decide_eq_true_eq] at h
+      obtain ⟨⟨hh, hu⟩, hrest⟩ := h
+      have := ih hrest
+      simp only [unitsAt_cons, hh]
+      split <;> omega
+
+/-- stored units at every height ≤ requested units at that height -/
+def G (s : St) (g : String → List Rec) : Prop :=
+  ∀ k q, unitsAt (unlocksOf (s.lps k)) q ≤ unitsAt (g k) q
+
+theorem G_set {s : St} {g : String → List Rec} {k : String} {v : Option LP} (hG : G s g)
+    (hv : ∀ q, unitsAt (unlocksOf v) q ≤ unitsAt (unlocksOf (s.lps k)) q) : G (s.set k v) g := by
+  intro k' q
+  by_cases hk : k' = k
+  · subst hk; rw [set_same]; exact Nat.le_trans (hv q) (hG k' q)
+  · rw [set_other s v hk]; exact hG k' q
+
+theorem G_commit_shrink {s : St} {g : String → List Rec} {k : String} (hG : G s g) (r : Except Err (Option LP))
+    (hr : ∀ o, r = .ok o → ∀ q, unitsAt (unlocksOf o) q ≤ unitsAt (unlocksOf (s.lps k)) q) :
+    G (commit s k r).1 g := by
+  cases r with
+  | error e => exact hG
+  | ok o => exact G_set hG (hr o rfl)
+
+theorem removeCore_unitsAt {L C : Nat} {h : Int} {units : Nat} {stored : List Rec} {left : Nat} {o : Option LP}
+    (hok : removeCore L h units (prune L C h stored) left = .ok o) (q : Int) :
+    unitsAt (unlocksOf o) q ≤ unitsAt stored q := by
+  obtain ⟨_, _, _, _, _, hun⟩ := removeCore_ok hok
+  cases o with
+  | none => simp [unlocksOf, unitsAt, total]
+  | some lp =>
+    simp only [unlocksOf]
+    rw [hun lp rfl]
+    exact Nat.le_trans (unitsAt_shrinks (consume_shrinks _ _ _ _ _) q) (unitsAt_filter_le _ _ q)
+
+theorem G_step {s : St} {g : String → List Rec} (h : Int) (op : Op) (hG : G s g) :
+    G (step s h op).1 (reqStep s h op g) := by
+  cases op with
+  | unlock k u =>
+    simp only [step, reqStep]
+    cases hr : unlockH s.L s.C h (s.lps k) u with
+    | error e => simp only [commit, Res.isOk, cond_false]; exact hG
+    | ok o =>
+      obtain ⟨lp, hlp, hu⟩ := unlockH_ok hr
+      obtain ⟨ho, _⟩ := unlockLP_ok hu
+      simp only [commit, Res.isOk, cond_true]
+      intro k' q
+      by_cases hk : k' = k
+      · subst hk
+        have := hG k' q
+        rw [hlp] at this
+        simp only [unlocksOf] at this
+        have hp := unitsAt_filter_le (keepRec s.L s.C h) lp.unlocks q
+        simp only [set_same, updR, if_true, ho, unlocksOf, unitsAt_append]
+        unfold prune
+        omega
+      · simp only [set_other s o hk, updR, if_neg hk]; exact hG k' q
+  | cancel k u =>
+    simp only [step, reqStep]
+    refine G_commit_shrink hG _ ?_
+    intro o ho q
+    obtain ⟨lp, hlp, hu⟩ := cancelH_ok ho
+    unfold cancelLP at hu
+    cases hx : useUnlocked s.L h (prune s.L s.C h lp.unlocks) u true with
+    | error e => rw [hx] at hu; cases hu
+    | ok p =>
+      obtain ⟨caller, st⟩ := p
+      rw [hx] at hu
+      simp only [Except.ok.injEq] at hu
+      subst hu
+      obtain ⟨hc1, hs1, _, _⟩ := useUnlocked_ok hx
+      rw [hlp]
+      simp only [unlocksOf]
+      rw [hs1, hc1]
+      exact Nat.le_trans (unitsAt_filter_le _ _ q)
+        (Nat.le_trans (unitsAt_shrinks (consume_shrinks _ _ _ _ _) q) (unitsAt_filter_le _ _ q))
+  | removeUnits k w hc =>
+    simp only [step, reqStep]
+    refine G_commit_shrink hG _ ?_
+    intro o ho q
+    obtain ⟨lp, left, hlp, hcq⟩ := removeUnitsH_ok (gate_ok ho)
+    rw [hlp]; exact removeCore_unitsAt hcq q
+  | remove k wb a hc =>
+    simp only [step, reqStep]
+    refine G_commit_shrink hG _ ?_
+    intro o ho q
+    obtain ⟨lp, left, hlp, hcq⟩ := removeH_ok (gate_ok ho)
+    rw [hlp]; exact removeCore_unitsAt hcq q
+  | add k m =>
+    simp only [step, reqStep]
+    refine G_commit_shrink hG _ ?_
+    intro o ho q
+    obtain ⟨lp, ho', hun, _⟩ := addH_ok ho
+    rw [ho']; simp only [unlocksOf, hun]; exact Nat.le_refl _
+  | setParams L C => exact hG
+
+theorem G_run {s : St} {g : String → List Rec} (ops : List (Int × Op)) (hG : G s g) :
+    G (runR s g ops).1 (runR s g ops).2 := by
+  induction ops generalizing s g with
+  | nil => exact hG
+  | cons p ops ih =>
+    obtain ⟨h, op⟩ := p
+    simp only [runR]
+    exact ih (G_step h op hG)
+
 end Sif.Proofs.C15
